@@ -325,7 +325,9 @@ func judge(k kase) (sigs [][2]string, crashed int, files int) {
 		} else {
 			for i := range a {
 				if a[i].Name != b[i].Name {
-					add("hide-differential:file-name-differs", fmt.Sprintf("%q vs %q", a[i].Name, b[i].Name))
+					// (known for place pages, which are named after living people's places: the kind of the
+					// two files is part of the signature so that other files are not covered by it)
+					add("hide-differential:file-name-differs:"+pageKind(norm(a[i].Name))+"/"+pageKind(norm(b[i].Name)), fmt.Sprintf("%q vs %q", a[i].Name, b[i].Name))
 				} else if a[i].Body != b[i].Body && a[i].Panic == "" && b[i].Panic == "" {
 					// the header of every page counts the surnames of the surname list, which ignores
 					// -living (known root cause): a difference in that one number is named as such
